@@ -286,3 +286,26 @@ def Gnat.remove (ctx : Ctx α D U) (ord : Nat → Nat → List Nat) (g : Gnat α
 end Remove
 
 end OmplModel.NN
+
+namespace OmplModel.NN
+
+/-! ### operation histories (the mutating part of the `NearestNeighbors` API) -/
+
+section Run
+variable {α D U : Type}
+variable [BEq α] [Add D] [Sub D] [LE D] [LT D] [DecidableLE D] [DecidableLT D] [OfNat D 0]
+
+/-- one API call; the state carries the not yet consumed k-centers draws. -/
+def gnatStep (ctx : Ctx α D U) (ord : Nat → Nat → List Nat) (s : Gnat α D × List U) : Op α → Gnat α D × List U
+  | .add x => let r := s.1.add ctx x s.2; (r.1, r.2.1)
+  | .addv xs => let r := s.1.addv ctx xs s.2; (r.1, r.2.1)
+  | .remove x => let r := s.1.remove ctx ord x s.2; (r.1.1, r.1.2.1)
+  | .clear => (s.1.clear, s.2)
+
+def gnatRun (ctx : Ctx α D U) (ord : Nat → Nat → List Nat) (ops : List (Op α)) (g0 : Gnat α D) (us : List U) :
+    Gnat α D × List U :=
+  ops.foldl (gnatStep ctx ord) (g0, us)
+
+end Run
+
+end OmplModel.NN
